@@ -7,10 +7,10 @@ CHECK = dict(
          "force-recursive / include-external; source faults that make the copy fail midway or recover; Close(target) called from inside every k-th source request / "
          "progress callback of the running copy), hand-made pushes of a node's closure (complete, without blobs, without children; tagged / by digest / as child), "
          "single manifest / blob puts, tag delete (plain tags and the referrers fallback tag), manifest delete (plain, check-referrers, with-manifest), planted "
-         "blobs/<alg>/*.tmp files and unreferenced blobs, Close, re-open with a fresh client; ~30 % of the closes and ~15 % of the other operations are called with a context that is already cancelled, past its deadline or cancelled by another goroutine during the call (a dead context never widens what Close may delete; completeness is only demanded of closes with a live context) - over an imggen graph (nested indexes, shared layers, schema1, OCI "
-         "artifact manifests with blobs[], blob-typed index entries, inline data, foreign layers, bodies without mediaType) extended with sibling images sharing "
+         "blobs/<alg>/*.tmp files and unreferenced blobs, Close, image export+import into the layout, BlobDelete, re-open with fresh clients; two client instances used one after the other; target references by tag / digest / tag@digest / without tag (default tag), Close references in the same four forms, the layout path spelled absolute / relative / ./relative (one spelling per case), Close of the source layout of a copy; ~30 % of the closes and ~15 % of the other operations are called with a context that is already cancelled, past its deadline or cancelled by another goroutine during the call (a dead context never widens what Close may delete; completeness is only demanded of closes with a live context) - over an imggen graph (nested indexes, shared layers, schema1, OCI "
+         "artifact manifests with blobs[], blob-typed index entries, inline data, foreign layers, bodies without mediaType, sha512-addressed blobs and manifests) extended with a signed schema1 manifest, with sibling images sharing "
          "blobs and referrers (image / artifact / index with subject and own children, referrers of referrers, subjects stored nowhere), some addressed by sha512; "
-         "target pre-state absent / empty / raw layout of the graph (complete or partial, tagged only or every manifest listed); system = RegClient (GC on) | bare "
+         "target pre-state absent / empty / raw layout of the graph (complete or partial, tagged only or every manifest listed; as other tools write it: full image name in ref.name, io.containerd.image.name, an entry listed twice, no tagged entry at all; planted files: *.tmp, unreferenced blobs, objects under another algorithm directory, non-digest non-temporary files); system = RegClient (GC on) | bare "
          "ocidir scheme (GC on) | ocidir.New(WithGC(false)). Every history ends with a push of an unreferenced blob and a Close. Part B (job conc): one evaluation = "
          "one schedule of 2-4 goroutines on one client running 2-5 ImageCopy calls of nodes of one graph (each from its own source repository into its own tag of "
          "ONE layout; sparse / referrers / digest-tags / source faults that fail one copy while others run) interleaved with Close(target) steps (live / cancelled / expired / concurrently cancelled context), Close(target) "
